@@ -1289,17 +1289,32 @@ func spEngineWiring(sf *spFile) bool {
 	if len(l) != 4 {
 		return fail("body has %d statements, expected 4", len(l))
 	}
-	a, c := spDefine(l[0], 1, e+".src.Packets")
+	// `errc2 := e.rcv.ReceivePackets(ctx)` depends on nothing: it may stand anywhere before the return
+	var e2 []string
+	var c *ast.CallExpr
+	rest := []ast.Stmt{}
+	for _, st := range l[:3] {
+		if e2 == nil {
+			if x, cc := spDefine(st, 1, e+".rcv.ReceivePackets"); x != nil {
+				if !spArgsAre(cc, ctx) {
+					return fail("%q: expected `errc2 := %s.rcv.ReceivePackets(%s)`", src(st), e, ctx)
+				}
+				e2 = x
+				continue
+			}
+		}
+		rest = append(rest, st)
+	}
+	if e2 == nil || len(rest) != 2 {
+		return fail("no statement `errc2 := %s.rcv.ReceivePackets(%s)` before the return", e, ctx)
+	}
+	a, c := spDefine(rest[0], 1, e+".src.Packets")
 	if a == nil || !spArgsAre(c, ctx, r) {
-		return fail("statement 1 is %q, expected `packets := %s.src.Packets(%s, %s)`", src(l[0]), e, ctx, r)
+		return fail("%q: expected `packets := %s.src.Packets(%s, %s)`", src(rest[0]), e, ctx, r)
 	}
-	d, c := spDefine(l[1], 2, e+".snd.SendPackets")
+	d, c := spDefine(rest[1], 2, e+".snd.SendPackets")
 	if d == nil || !spArgsAre(c, ctx, a[0]) {
-		return fail("statement 2 is %q, expected `done, errc1 := %s.snd.SendPackets(%s, %s)`", src(l[1]), e, ctx, a[0])
-	}
-	e2, c := spDefine(l[2], 1, e+".rcv.ReceivePackets")
-	if e2 == nil || !spArgsAre(c, ctx) {
-		return fail("statement 3 is %q, expected `errc2 := %s.rcv.ReceivePackets(%s)`", src(l[2]), e, ctx)
+		return fail("%q: expected `done, errc1 := %s.snd.SendPackets(%s, %s)`", src(rest[1]), e, ctx, a[0])
 	}
 	names := map[string]bool{a[0]: true, d[0]: true, d[1]: true, e2[0]: true, ctx: true, r: true, e: true}
 	if len(names) != 7 {
